@@ -22,4 +22,20 @@ theorem listTree_chain (o : Opd) (ops : List (BinOp × Opd × Nat × Nat)) (hne 
     simpa [strictAst, opItems, normOcc] using ht
   simp [listTree, hs, hl]
 
+theorem markItems_raw (occ : Option Occur) (o : Opd) (ms : List (Option Occur × Opd × Nat)) :
+    ((none : Option BinOp), normOcc occ, some o.leaf) :: ((markItems ms).map itemOf).map rawOf
+      = (marksItems (markEntries occ o ms)).map rawOf := by
+  simp [markItems, markEntries, marksItems, rawOf, itemOf, List.map_map, Function.comp_def]
+
+theorem listTree_marks (occ : Option Occur) (o : Opd) (ms : List (Option Occur × Opd × Nat)) (hne : ms ≠ []) :
+    listTree occ o (markItems ms) = (lenientFold ((marksItems (markEntries occ o ms)).map rawOf)).1 := by
+  obtain ⟨t, ht⟩ := strictFold_ok (normOcc occ, o.leaf) ((markItems ms).map itemOf)
+  have hl := lenient_of_strict (normOcc occ, o.leaf) ((markItems ms).map itemOf) t ht
+  simp only [] at hl
+  rw [markItems_raw] at hl
+  have hs : strictAst (normOcc occ, o.leaf) ((markItems ms).map itemOf) = .ok t := by
+    obtain ⟨x, xs, rfl⟩ := List.exists_cons_of_ne_nil hne
+    simpa [strictAst, markItems] using ht
+  simp [listTree, hs, hl]
+
 end TantivyModel.Grammar.Chars
